@@ -112,6 +112,16 @@ def path_functions(family):
         for k, v in d.items():
             defs.setdefault(k, v)       # first file wins (BillingModel.predict before DailyModel.predict)
         classes.update(c)
+    related = set()
+    for e in entries:
+        if "." in e:
+            stack = [e.split(".")[0]]
+            while stack:
+                c = stack.pop()
+                if c not in related:
+                    related.add(c)
+                    stack += classes.get(c, [])
+    related = sorted(related)
     todo, seen = [], []
     for e in entries:
         if "." in e:
@@ -135,19 +145,23 @@ def path_functions(family):
         for kind, name in _calls(fn):
             if kind in ("self", "super"):
                 _need(cls is not None, "%s: self.%s() outside a class in %s" % (family, name, q))
-                start = classes.get(cls, []) if kind == "super" else [cls]
-                tgt = None
-                for c in start:
-                    tgt = _resolve_method(c, name, defs, classes)
-                    if tgt:
-                        break
-                if tgt is None and kind == "self":
-                    # a method of any class of the family (BillingModel inherits DailyModel from another file)
-                    cands = [k for k in defs if k.endswith("." + name)]
-                    _need(len(cands) >= 1, "%s: %s calls self.%s(), which is in none of the family's files" % (family, q, name))
-                    tgt = cands[0]
-                if tgt:
-                    todo.append(tgt)
+                if kind == "super":
+                    tgts = []
+                    for c in classes.get(cls, []):
+                        t = _resolve_method(c, name, defs, classes)
+                        if t:
+                            tgts.append(t)
+                            break
+                else:
+                    # dynamic dispatch: the definition seen from this class AND every override in the classes of the entry
+                    # points (and their ancestors) — e.g. _HourlyData.__init__ calls self._check_data_sufficiency()
+                    tgts = [t for t in [_resolve_method(cls, name, defs, classes)] if t]
+                    tgts += ["%s.%s" % (c, name) for c in related if "%s.%s" % (c, name) in defs]
+                    if not tgts:
+                        cands = [k for k in defs if k.endswith("." + name)]
+                        _need(len(cands) >= 1, "%s: %s calls self.%s(), which is in none of the family's files" % (family, q, name))
+                        tgts = cands[:1]
+                todo += tgts
             else:
                 if name in FORBIDDEN_CALLS:
                     ok = False
